@@ -112,7 +112,27 @@ func.func public @f({", ".join(a + " : " + t for a, t in zip(args, types))}) {{
 
 def gen_case(rng, plain=False, fam=None):
     """plain: default (row-major) layouts on every operand and no set-memory-layout"""
-    fam = fam or rng.choice(["alu", "alu", "gemm", "gemm", "gemm", "xdma"])
+    fam = fam or rng.choice(["alu", "alu", "gemm", "gemm", "gemm", "xdma", "simd"])
+    if fam == "simd":
+        # gemmx used as a rescaling unit only (D8 = rescale(C)): streamers A and B are parked on zero patterns, D32 is off
+        shp = rng.choice(["8x8", "16x16", "32x16", "16x24", "8x32"])
+        t32, t8 = f"memref<{shp}xi32>", f"memref<{shp}xi8>"
+        text = f"""builtin.module {{
+func.func public @f(%a : {t32}, %e : {t8}) {{
+  "dart.operation"(%a, %e) <{{patterns = [affine_map<(d0, d1) -> (d0, d1)>, affine_map<(d0, d1) -> (d0, d1)>], accelerator = "snax_gemmx", operandSegmentSizes = array<i32: 1, 1>}}> ({{
+  ^bb0(%s0 : !dart.stream<i32>, %s1 : !dart.stream<i8>):
+    %s3 = "dart.generic"(%s0) <{{library_call = "snax_gemmx"}}> ({{
+    ^bb1(%k0 : i32, %k2 : i8):
+      %k3 = kernel.rescale %k0 {{input_zp = 1 : i32, output_zp = -2 : i32, multiplier = array<i32: 1234>, shift = array<i8: 9>, min_int = -128 : i32, max_int = 127 : i32, double_round = false}} : (i32) -> i8
+      dart.yield %k3 : i8
+    }}) : (!dart.stream<i32>) -> !dart.stream<i8>
+    dart.yield %s3 : !dart.stream<i8>
+  }}) : ({t32}, {t8}) -> ()
+  func.return
+}}
+}}
+"""
+        return text, "snax_gemmx", True
     if fam == "xdma":
         # the xDMA with a width-changing extension kernel (rescale down i32 -> i8, up i8 -> i32): reader and writer move different numbers
         # of bytes per element
